@@ -122,6 +122,16 @@ func glvEdgeScalars() []*big.Int {
 		jl := new(big.Int).Mod(new(big.Int).Mul(lambda, big.NewInt(j)), r)
 		out = append(out, jl, new(big.Int).Sub(r, jl), new(big.Int).Mod(new(big.Int).Add(jl, big.NewInt(j)), r))
 	}
+	for _, a := range []uint{0, 1, 31, 63} { // the same bit position set in several limbs
+		b := new(big.Int).Lsh(big.NewInt(1), a)
+		for _, shifts := range [][]uint{{64}, {128}, {64, 128}, {192}, {64, 192}} {
+			v := new(big.Int).Set(b)
+			for _, sh := range shifts {
+				v.Add(v, new(big.Int).Lsh(b, sh))
+			}
+			out = append(out, v.Mod(v, r))
+		}
+	}
 	half := new(big.Int).Rsh(r, 1)
 	out = append(out, half, new(big.Int).Add(half, big.NewInt(1)))
 	sq := new(big.Int).Sqrt(r)
